@@ -80,6 +80,19 @@ theorem nil_receivers_are_source :
    ⟨nil_receivers_2.1, nil_receivers_2.2.1, nil_receivers_2.2.2.1, nil_receivers_2.2.2.2.1, nil_receivers_2.2.2.2.2.1, nil_receivers_2.2.2.2.2.2.1⟩,
    Environmental_Decode_nil_3, Environmental_Decode_nil_2⟩
 
+/-- the accessors `BaseMetrics()` / `TemporalMetrics()` of the source: a view of the receiver itself for a non-nil receiver, nil — and
+    no dereference — for the nil receiver (C12 lists them among the operations that must not panic; C14 is about what they return) -/
+theorem accessors_are_source (o3 : V3.Obj3) (o2 : V2.Obj2) :
+    (Gen.D3.Base_BaseMetrics o3 = some (o3, true) ∧ Gen.D3.Temporal_BaseMetrics o3 = some (o3, true) ∧
+      Gen.D3.Environmental_BaseMetrics o3 = some (o3, true) ∧ Gen.D3.Environmental_TemporalMetrics o3 = some (o3, true) ∧
+      Gen.D3.Base_BaseMetrics_nil = some (none, false) ∧ Gen.D3.Temporal_BaseMetrics_nil = some (none, false) ∧
+      Gen.D3.Environmental_BaseMetrics_nil = some (none, false) ∧ Gen.D3.Environmental_TemporalMetrics_nil = some (none, false)) ∧
+    (Gen.D2.Temporal_BaseMetrics o2 = some (o2, true) ∧ Gen.D2.Environmental_BaseMetrics o2 = some (o2, true) ∧
+      Gen.D2.Environmental_TemporalMetrics o2 = some (o2, true) ∧
+      Gen.D2.Temporal_BaseMetrics_nil = some (none, false) ∧ Gen.D2.Environmental_BaseMetrics_nil = some (none, false) ∧
+      Gen.D2.Environmental_TemporalMetrics_nil = some (none, false)) :=
+  ⟨accessors_3 o3, accessors_2 o2⟩
+
 /-- C12 at these sites, from the source text: no index or slice expression of the decoders, encoders and validity checks
     can panic, whatever the object and the input -/
 theorem no_index_panic (o3 : V3.Obj3) (o2 : V2.Obj2) (s : Bytes) :
